@@ -110,6 +110,15 @@ let dispatch cmd a =
     tok_of_bytes (mmap_set (bytes_of_tok a.(0)) (zi 1) (zi 2) (zi 3) (zi 4) (bytes_of_tok a.(5)))
   | "setdim" -> (* xfile off ps o w xvalues : one value of w bytes per record *)
     tok_of_bytes (mmap_set_dim (bytes_of_tok a.(0)) (zi 1) (zi 2) (zi 3) (split_every (int_of_string a.(4)) (bytes_of_tok a.(5))))
+  | "shortcall" -> (* into cap n pos xbytes : ONE call on a source that gives at most cap bytes: data | position | log *)
+    let s = { st_bytes = bytes_of_tok a.(4); st_pos = zi 3; st_log = [] } in
+    let (d, s1) = if bool_of_tok a.(0) then s_readinto_short (zi 1) (zi 2) s else s_read_short (zi 1) (zi 2) s in
+    tok_of_bytes d ^ " | " ^ string_of_z s1.st_pos ^ " | " ^ tok_of_log s1.st_log
+  | "exact" -> (* into caps n pos xbytes : asking again until the n bytes are there; and the one call of a source that is never short *)
+    let s = { st_bytes = bytes_of_tok a.(4); st_pos = zi 3; st_log = [] } in
+    let (d, s1) = read_exact (bool_of_tok a.(0)) (zlist_of_tok a.(1)) (zi 2) s in
+    let (d0, s0) = if bool_of_tok a.(0) then s_readinto (zi 2) s else s_read (zi 2) s in
+    tok_of_bytes d ^ " | " ^ string_of_z s1.st_pos ^ " | " ^ tok_of_log s1.st_log ^ " | " ^ tok_of_bool (d = d0 && s1.st_pos = s0.st_pos)
   | _ -> "unknown-command " ^ cmd
 
 let () =
